@@ -649,11 +649,11 @@ type KxHigh struct {
 	C  string `plenc:"103"`
 }
 
-type KxHighPrime struct {
-	A int    `plenc:"1"`
-	B int    `plenc:"102"`
-	C string `plenc:"103"`
+type KxHighPrime struct { // reordered: the high indexes are declared out of ascending order
 	D int    `plenc:"200"`
+	B int    `plenc:"102"`
+	A int    `plenc:"1"`
+	C string `plenc:"103"`
 }
 
 // ---- shapes added after the fifth campaign
